@@ -126,7 +126,19 @@ def do_pair(c):
         ct = tx.encrypt(bytes.fromhex(c["pdu"]), c["d_tx"])
     except Exception as e:  # noqa
         return {"exc": type(e).__name__}
-    return {"ct": ct.hex(), "res": do_dec(rx, ct, c["d_rx"], c["tol"])}
+    res = {"ct": ct.hex(), "res": do_dec(rx, ct, c["d_rx"], c["tol"])}
+    # the same PDU through the independent reference (Cryptodome CCM called directly, nonce = 39-bit counter,
+    # direction bit, IV as in the Bluetooth specification). whad names the directions the other way round
+    # (MASTER_TO_SLAVE -> direction bit 0), so whad's direction d corresponds to the reference's bit (d != 1).
+    try:
+        pdu = bytes.fromhex(c["pdu"])
+        if len(pdu) >= 2:
+            sk, iv = ref_session(bytes.fromhex(c["tx"]["ltk"]), c["tx"]["mat"])
+            cnt = c["tx"]["mc"] if c["d_tx"] == 1 else c["tx"]["sc"]
+            res["ref_body"] = ref_encrypt(sk, iv, cnt, c["d_tx"] != 1, pdu)[2:].hex()
+    except Exception:  # noqa
+        pass
+    return res
 
 
 def do_link(c):
